@@ -1,4 +1,5 @@
 """C07 - Evaluation is total and recoverable (structural clauses; DESIGN.md section 2, C07)."""
+import collections
 import re
 
 from kern import (CallGraph, branch_edges, calls_by_name, calls_to, callers, origins, short_fn, top_fn)
@@ -479,6 +480,109 @@ def r6_writer(ctx, F):
                   "for_loops.pop post-dominates the push", "a path leaves write_for with the loop still open", fn=f)
 
 
+# R9 reviewed sites: overflow-checked signed arithmetic that the interval analysis cannot prove exact.
+# key "<function>:<Op>:<type>" -> (number of such operations reviewed, why none can overflow)
+SIGNED_ARITH_TABLE = {
+    "implementation::convert_frame:Add:i64": (4, "DAP frame conversion: 0-based line/column of a resolved span (bounded by "
+                                                 "the file size, a u32 position) plus one"),
+    "native enumerate:Add:i64": (1, "iteration count (usize widened to i64; bounded by the number of elements produced, far "
+                                    "below 2^62) plus an i32 start"),
+    "index::convert_index_aux:Add:i32": (1, "`len + x` is evaluated only when x < 0 and len >= 0 (a container length)"),
+    "index::convert_slice_indices:Sub:i32": (1, "`len - 1` with len >= 0 (a container length)"),
+    "index::convert_slice_indices:Add:i32": (2, "`len + clamp` with len >= 0 and clamp in {-1, 0}"),
+    "index::apply_slice:Add:i32": (2, "start/stop were clamped to [-1, len-1] by convert_slice_indices before `+ 1`"),
+    "InlineInt::min_max_for_bits:Sub:i32": (1, "const fn evaluated at compile time on the fixed bit count"),
+    "StarlarkIntRef::floor_div_small_small:Mul:i32": (1, "product of two InlineInt::signum results (each in -1..=1)"),
+    "StarlarkIntRef::floor_div_big_big:Mul:i32": (1, "product of two signum_big results (each in -1..=1)"),
+    "native list.pop:Sub:i32": (1, "`len as i32 - 1` with len a list length (non-negative)"),
+}
+
+
+def r9_signed_arith(ctx, F):
+    """every overflow-checked +, -, * on a signed integer in the interpreter crate is either proven exact by the
+    interval analysis (operands widened from a narrower type, constants, std ranges) or a reviewed site"""
+    from kern import checked_arith_sites, natives
+    nat = {}
+    for n in natives(F):
+        if n.impl is not None:
+            ty = re.search(r"(\w+?)_METHODS_STATICS", n.builder.qpath)
+            nat[n.impl.uid] = "native " + (("%s.%s" % (ty.group(1).lower(), n.name)) if ty else n.name)
+    seen = collections.Counter()
+    first = {}
+    n_sites = n_proven = 0
+    for f in F.fns.values():
+        if f.crate != "starlark":
+            continue
+        sites = [x for x in checked_arith_sites(f) if x[2] in ("i8", "i16", "i32", "i64", "isize", "i128")]
+        if not sites:
+            continue
+        t = top_fn(F, f)
+        where = nat.get(t.uid) or short_fn(t.qpath)
+        for st, op, ty, r, ok in sites:
+            n_sites += 1
+            if ok:
+                n_proven += 1
+                continue
+            k = "%s:%s:%s" % (where, op, ty)
+            seen[k] += 1
+            first.setdefault(k, (f, st))
+    for k, cnt in sorted(seen.items()):
+        f, st = first[k]
+        ent = SIGNED_ARITH_TABLE.get(k)
+        ctx.check(ent is not None and cnt <= ent[0], "C07.R9", "signed-arith:" + k,
+                  "reviewed: " + (ent[1] if ent else ""),
+                  "`%s` performs %d overflow-checked `%s` on %s whose operands are not provably small (%s reviewed): with "
+                  "an operand taken from a Starlark integer this panics (`attempt to %s with overflow`) in builds with "
+                  "overflow checks and wraps silently otherwise; widen before the operation or use checked_*"
+                  % (k.rsplit(":", 2)[0], cnt, op_name(k), k.rsplit(":", 1)[1], ent[0] if ent else "none",
+                     {"Add": "add", "Sub": "subtract", "Mul": "multiply"}[k.rsplit(":", 2)[1]]), fn=f, line=st.line)
+    ctx.info["signed_checked_arith"] = dict(sites=n_sites, proven_exact_by_intervals=n_proven,
+                                            reviewed=sum(seen.values()))
+    ctx.floor("C07.R9", "overflow-checked signed arithmetic sites", n_sites, 21, inventory=True)
+    ctx.floor("C07.R9", "sites proven exact by the interval analysis", n_proven, 6, inventory=True)
+
+
+def _panicky_index(f):
+    out = [c for c in f.calls if c.bb not in f.cleanup and re.search(r"ops::Index(Mut)?<.*>>::index(_mut)?$", c.name)]
+    out += [t for b, t in f.terms.items() if t[0] == "assert" and t[2].startswith("BoundsCheck") and b not in f.cleanup]
+    return out
+
+
+def r10_module_slots(ctx, F):
+    """a module stays usable after a failed evaluation: scope resolution registers names (slot ids) before the slots
+    exist, so either reading a slot by id is total, or every exit of eval_module after name registration allocates
+    the slots; writes through Module::set allocate the slot first"""
+    ev = F.one(r"starlark::eval::<impl eval::runtime::evaluator::Evaluator<'v, 'a, 'e>>::eval_module$")
+    chk = calls_by_name(ev, r"ModuleScopes::<'f>::check_module_err$|ModuleScopes::check_module_err$")
+    ens = calls_by_name(ev, r"MutableSlots::<'v>::ensure_slots$")
+    if not chk or not ens:
+        ctx.bad("C07.R10", "eval_module:anchor", "anchor-missing: check_module_err / ensure_slots in eval_module", fn=ev)
+        return
+    all_exits_allocate = all(ev.must_pass(c.bb, [e.bb for e in ens], ev.returns()) for c in chk)
+    for pat, nm in ((r"environment::slots::MutableSlots::<'v>::get_slot$", "MutableSlots::get_slot"),
+                    (r"environment::slots::FrozenSlots::get_slot$", "FrozenSlots::get_slot")):
+        g = F.one(pat)
+        pk = _panicky_index(g)
+        ctx.check(not pk or all_exits_allocate, "C07.R10", "slot-read-total:" + nm,
+                  "reading a slot by id cannot panic (checked `get`)" if not pk else
+                  "every exit of eval_module allocates the slots of the names it registered",
+                  "`%s` indexes the slot vector unchecked, and eval_module returns the scope-resolution error before "
+                  "ensure_slots: names registered by the failed evaluation have ids beyond the vector, so a later "
+                  "Module::get(name) / FrozenModule::get(name) panics (index out of bounds) instead of returning None"
+                  % nm, fn=g)
+    for nm in ("set", "set_private"):
+        f = F.one(r"environment::modules::Module::<'v>::%s$" % nm)
+        sets = calls_by_name(f, r"MutableSlots::<'v>::set_slot$")
+        en = calls_by_name(f, r"MutableSlots::<'v>::ensure_slots?$")
+        ctx.check(bool(sets) and bool(en) and all(any(f.dominates(e.bb, s.bb) for e in en) for s in sets),
+                  "C07.R10", "slot-write-allocates:Module::" + nm, "ensure_slot dominates set_slot",
+                  "Module::%s writes a slot without allocating it first" % nm, fn=f)
+
+
+def op_name(k):
+    return {"Add": "+", "Sub": "-", "Mul": "*"}[k.rsplit(":", 2)[1]]
+
+
 def run(ctx):
     F = ctx.facts("core")
     r1_pairing(ctx, F)
@@ -491,3 +595,5 @@ def run(ctx):
     r6_writer(ctx, F)
     r7_negation(ctx, F)
     r8_indexing(ctx, F)
+    r9_signed_arith(ctx, F)
+    r10_module_slots(ctx, F)
